@@ -357,8 +357,8 @@ func ruleIncrementRenormalised(w *World, r *RuleResult) {
 				switch {
 				case cn == "roundAddOne":
 					r.ok(key, w.instrPos(c), "roundAddOne re-counts the digits and moves a carry into the exponent", true)
-				case incrementTable[name] != "":
-					r.ok(key, w.instrPos(c), "tabled: "+incrementTable[name], false)
+				case w.ownerIn(f, []string{"(*Decimal).setExponent", "(*Context).quantize"}) != "":
+					r.ok(key, w.instrPos(c), "tabled: "+incrementTable[w.ownerIn(f, []string{"(*Decimal).setExponent", "(*Context).quantize"})], false)
 				default:
 					r.bad(key, w.instrPos(c), "the coefficient is incremented directly after a rounding decision; an all-nines carry produces Precision+1 digits")
 				}
